@@ -75,6 +75,9 @@ func main() {
 			defer wg.Done()
 			defer func() { <-sem }()
 			c := gen.Generate(uint64(i), p)
+			if which == "stw" {
+				c = gen.StoreThenWalk(uint64(i))
+			}
 			for v := mach.Variant(0); v < mach.NumVariants; v++ {
 				if only != "" && v.String() != only {
 					continue
